@@ -9,6 +9,7 @@ EXTENDS NackDefs, Json
 CONSTANTS SeqVals,      \* sequence numbers the lists are drawn from
           MaxList,      \* maximal list length
           TableIds,     \* packet IDs for the complete bitmap tables
+          MaxPairs,     \* longest "spaced" list (number of pairs it opens)
           RangeLists    \* Range is walked on the pairs built from lists up to this length
 VARIABLES phase,        \* "pick" | "build" | "built" | "table" | "done"
           input, idx, pairs, cur,     \* builder loop
@@ -19,7 +20,10 @@ NoPair == [pid |-> 0, blp |-> 0]
 NInit == /\ phase = "pick" /\ input = << >> /\ idx = 0 /\ pairs = << >> /\ cur = NoPair
          /\ rp = NoPair /\ rstop = 0 /\ rbits = 0 /\ ridx = 0 /\ rvisited = << >>
 
-Lists == UNION { [1..n -> SeqVals] : n \in 0..MaxList }
+\* longer lists: k numbers 100 apart (k pairs), then one more that belongs to the window of an earlier pair
+Spaced(k, j, dd) == [i \in 1..k |-> 100 * (i - 1)] \o << 100 * (j - 1) + dd >>
+LongLists == UNION { { Spaced(k, j, dd) : j \in { x \in 1..k : x = 1 \/ x >= k - 1 }, dd \in {1, 16, 17} } : k \in 1..MaxPairs }
+Lists == UNION { [1..n -> SeqVals] : n \in 0..MaxList } \cup LongLists
 Emit(rec) == PrintT(<< "VERIF_BEH", ToJson(rec) >>)
 
 PickList ==
